@@ -40,6 +40,8 @@ func runStreamJob(job *Job, res *Result) {
 	absOut := job.Args["absout"] == "1" // the streaming output is declared with an ABSOLUTE path in a not-yet-existing directory
 	midParent := job.Args["midparent"] == "1" // ... with a path that has a "../" in it: sub/../<name>.stream
 	leftFifo := job.Args["leftover_fifo"] == "1" // a named pipe left by a killed run sits at <path>.fifo
+	modCons := job.Args["modcons"] == "1" // the consumer names its streamed input through a modifier that looks at the END of the path
+	logCons := job.Args["logcons"] == "1" // (with mixed) a further process consumes the producer's ORDINARY output
 	hdr := job.Args["hdr"] == "1"     // the consumer has a SECOND, ordinary in-port fed by a quick source (closed long before the producer is done)
 	spy := job.Args["spy"] == "1"     // a pass-through process between producer and consumer notes the order of the streamed IPs
 	res.Scenario = fmt.Sprintf("stream/n=%d/payload=%d/max=%d", n, size, maxT)
@@ -57,6 +59,15 @@ func runStreamJob(job *Job, res *Result) {
 	}
 	if hdr {
 		res.Scenario += "/consumer-with-second-in-port"
+	}
+	if modCons {
+		res.Scenario += "/consumer-input-through-suffix-modifier"
+	}
+	if logCons {
+		res.Scenario += "/ordinary-output-consumed"
+	}
+	if job.Args["postcores"] != "" {
+		res.Scenario += "/then-a-task-needing-" + job.Args["postcores"] + "-slots"
 	}
 	if job.ForceAll >= 0 {
 		res.Scenario += fmt.Sprintf("/maporder=%d", job.ForceAll)
@@ -139,6 +150,10 @@ func runStreamJob(job *Job, res *Result) {
 		if hdr {
 			consCmd = "cat {i:hdr} {i:in} > {o:out}"
 		}
+		if modCons {
+			// "<path>.fifo" with its suffix cut off and put back: the same pipe
+			consCmd = "cat {i:in|%.fifo}.fifo > {o:out}"
+		}
 		cons := wf.NewProc("cons", consCmd)
 		cons.SetOut("out", "{i:in}.copy")
 		if hdr {
@@ -152,6 +167,19 @@ func runStreamJob(job *Job, res *Result) {
 			cons.In("in").From(sp1.OutPort("out"))
 		} else {
 			cons.In("in").From(prod.Out("out"))
+		}
+		if pc, _ := strconv.Atoi(job.Args["postcores"]); pc > 0 {
+			// a process behind the consumer whose tasks need pc slots: they get them only if the streaming
+			// pair has handed ALL its slots back
+			post := wf.NewProc("post", "cat {i:in} > {o:out}")
+			post.SetOut("out", "{i:in}.post")
+			post.CoresPerTask = pc
+			post.In("in").From(cons.Out("out"))
+		}
+		if logCons && mixed {
+			lc := wf.NewProc("lc", "cat {i:in} > {o:out}")
+			lc.SetOut("out", "{i:in}.seen")
+			lc.In("in").From(prod.Out("log"))
 		}
 		wf.Run()
 		vs.Note("COMPLETED")
@@ -274,6 +302,11 @@ func runStreamJob(job *Job, res *Result) {
 				}
 			} else if ok {
 				add("regular-file-at-stream-path", fmt.Sprintf("a %s exists at the streaming output path %s.stream", kindOf(c), in), "")
+			}
+			if logCons && mixed {
+				if got, ok := tree[in+".log.seen"]; !ok || got != "done\n" {
+					add("ordinary-output-not-delivered", fmt.Sprintf("the producer's ordinary output %s.log was not delivered to its consumer (%s.log.seen: %q)", in, in, got), "")
+				}
 			}
 			if a, ok := tree[cp+".audit.json"]; ok {
 				var rec auditRec
